@@ -3,7 +3,8 @@
    T1.T1ProofsBase T1.T1ProofsSample T1.T1ProofsPass T1.T1ProofsSeq T1.T1ProofsFinal
    T1.T1ProofsOj T1.T1ProofsBytes T1.T1ProofsSim T1.T1ProofsMqRt T1.T1ProofsComp T1.T1ProofsCompThm
    T1.T1ProofsRestart T1.T1ProofsTermEnc T1.T1ProofsTermall T1.T1ProofsPterm T1.T1ProofsLazyEnc
-   T1.T1ProofsLazyTerm to its Require line; Require V.MQ.MqProofsSeg).
+   T1.T1ProofsLazyTerm T1.T1ProofsLazyMq T1.T1ProofsLazyEnc2 T1.T1ProofsLazyLayered T1.T1ProofsLazyNorm
+   T1.T1ProofsLazyDec T1.T1ProofsLazy to its Require line; Require V.MQ.MqProofsSeg).
 
    STATUS
    * Context tables = ISO/IEC 15444-1 Annex D (Tables D.1 - D.4): COMPLETE, over every entry of
@@ -13,24 +14,33 @@
      combinations), every fractional-bit count fb >= 0, every pass count np, every coefficient
      with |v| < 2^31.  No reference to the arithmetic coder.
    * Bytes through the real coder models (t1_roundtrip = DecodeLayeredWithMode(EncodeLayered(block),
-     Rate values) on the models): PROVED, unbounded in block size, orientation, coefficients and
-     fb, for 48 of the 64 style combinations - everything except LAZY (0x01) without TERMALL (0x04):
+     Rate values) on the models): PROVED for ALL 64 style combinations, unbounded in block size,
+     orientation, coefficients and fb (C20_t1_bytes_roundtrip_all_styles, C20_t1_roundtrip):
        - no LAZY, no TERMALL: one MQ codeword; RESET, VSC, SEGSYM, PTERM in any combination;
        - TERMALL with or without LAZY: one segment per pass (MQ codeword after RestartInitEnc, or
-         raw bits), Rate values delimit the segments; RESET, VSC, PTERM, SEGSYM in any combination.
-     C20_t1_bytes_roundtrip_unconditional covers the sub-classes where the stream is also proved
-     non-empty (no PTERM on a terminated pass: 24 combinations for every fb, 8 more for fb >= 1);
-     C20_t1_bytes_roundtrip_covered covers all 48 under the hypothesis that EncodeLayered's
-     output is not empty.  That hypothesis is needed for PTERM on a terminated pass only: GetBuffer
-     does not count a final byte 0xFF, so a codeword closed by ErtermEnc can be empty as far as
-     the MQ invariants go (mq area: mq_erterm_segment_refuted), and the decoder rejects empty data.
+         raw bits), Rate values delimit the segments;
+       - LAZY without TERMALL: one MQ codeword for the passes down to bit-plane maxBitplane-3
+         (several passes, context resets in between with RESET), then per bit-plane a raw segment
+         of two passes (significance + refinement) and a cleanup codeword; the Rate values of the
+         passes that end a segment survive normalizePassRates, those of the other passes are
+         never used by the decoder; the decoder's segment look-ahead finds exactly these ends;
+         with at most three coded bit-planes and fb > 0 the single codeword is closed by the
+         final Flush and the clipped Rate of the last pass is the stream length.
+     The only hypothesis besides the coefficient domain: the stream EncodeLayered returns is not
+     empty (the decoder rejects empty data).  It is PROVED for every style without PTERM (32
+     combinations, every fb: C20_t1_bytes_roundtrip_no_pterm) and for PTERM without LAZY and
+     TERMALL when fb >= 1 (8 more: C20_t1_bytes_roundtrip_unconditional).  For PTERM on a
+     terminated pass it is not derivable from the MQ invariants: GetBuffer does not count a final
+     byte 0xFF, so a codeword closed by ErtermEnc can be empty as far as they go (mq area:
+     mq_erterm_segment_refuted); no such T1 stream was found (all decision sequences of length
+     <= 6 over the T1 start contexts; harness runs).
      Composition = t1_lockstep + the mq area's joint encoder/decoder simulation (extended here to
-     context resets between passes, RestartInitEnc segments, ErtermEnc) + the mq area's raw
-     segment theorem + one generic channel-simulation lemma for the decoder model.
-   * Still STATEMENT only (C20_t1_roundtrip_statement): LAZY without TERMALL (16 combinations):
-     segments spanning several passes, Rate values of non-terminated passes, segment look-ahead.
-     All 64 styles are decided by computation on the bounded domains below and exercised by the
-     correspondence run / Go oracle.
+     context resets between passes, RestartInitEnc segments, ErtermEnc, several passes in one
+     codeword with the final contexts) + the mq area's raw segment theorem + one generic
+     channel-simulation lemma for the decoder model.
+     C20_t1_roundtrip_statement (the same without the non-emptiness hypothesis) stays a
+     Definition; all 64 styles are also decided by computation on the bounded domains below and
+     exercised by the correspondence run / Go oracle.
    * Truncated pass counts: C20_t1_truncation_statement (Definition; not proved; false as coded
      when the pass count stops on a non-terminated bypass pass - excluded in the statement).
 
@@ -46,7 +56,8 @@
 From V Require Import Common.Base T1.T1Store T1.T1Ctx T1.T1CtxProofs T1.T1Model T1.T1Bytes
   T1.T1ProofsBase T1.T1ProofsSample T1.T1ProofsPass T1.T1ProofsSeq T1.T1ProofsFinal T1.T1ProofsOj T1.T1ProofsBytes
   T1.T1ProofsSim T1.T1ProofsMqRt T1.T1ProofsComp T1.T1ProofsCompThm T1.T1ProofsRestart T1.T1ProofsTermEnc T1.T1ProofsTermall
-  T1.T1ProofsPterm T1.T1ProofsLazyEnc T1.T1ProofsLazyTerm.
+  T1.T1ProofsPterm T1.T1ProofsLazyEnc T1.T1ProofsLazyTerm T1.T1ProofsLazyMq T1.T1ProofsLazyEnc2 T1.T1ProofsLazyLayered
+  T1.T1ProofsLazyNorm T1.T1ProofsLazyDec T1.T1ProofsLazy.
 Require V.Gen.T1Tables_gen V.MQ.MqProofsSeg.
 
 (* ---------------------------------------------------------------------------------------
@@ -210,7 +221,9 @@ Qed.
    Bytes: composition statement and bounded instances
    --------------------------------------------------------------------------------------- *)
 (* THE T1 CLAUSE ON THE MODELS, all styles: the block decoder returns the block from the block
-   encoder's bytes and Rate values.  Definition only; proved for the style classes below. *)
+   encoder's bytes and Rate values.  Definition only (no hypothesis on the stream); proved for
+   all 64 styles as C20_t1_roundtrip below, where styles with PTERM carry the hypothesis that
+   the stream is not empty. *)
 Definition C20_t1_roundtrip_statement : Prop := t1_roundtrip_statement.
 
 (* default style 0: one MQ codeword, normal flush *)
@@ -287,6 +300,81 @@ Example C20_t1_bytes_roundtrip_covered_instance :
   = Some (4, 13%nat, true, [0; 0; 0; 104; 170]) /\
   t1_roundtrip 1 1 0 21 0 [17] = Ok [17].
 Proof. split; [left; discriminate|]. vm_compute. split; reflexivity. Qed.
+
+(* LAZY without TERMALL (the remaining 16 combinations): segments of several passes *)
+Theorem C20_t1_bytes_roundtrip_lazy :
+  forall (wn hn : nat) (orient style fb : Z) (data : list Z),
+  Z.land style 1 <> 0 -> Z.land style 4 = 0 -> Z.land style 16 = 0 ->
+  length data = (wn * hn)%nat -> data_ok data -> 0 <= fb ->
+  (forall v, In v data -> exists c, v = c * 2 ^ fb) ->
+  t1_roundtrip wn hn orient style fb data = Ok data.
+Proof. exact t1_bytes_roundtrip_lazy. Qed.
+Print Assumptions C20_t1_bytes_roundtrip_lazy.
+
+Theorem C20_t1_bytes_roundtrip_lazy_pterm :
+  forall (wn hn : nat) (orient style fb : Z) (data : list Z),
+  Z.land style 1 <> 0 -> Z.land style 4 = 0 ->
+  length data = (wn * hn)%nat -> data_ok data -> 0 <= fb ->
+  (forall v, In v data -> exists c, v = c * 2 ^ fb) ->
+  (forall mb ps bytes,
+     enc_layered wn hn orient style fb (3 * (find_max_bitplane data - fb + 1) - 2) data = Ok (mb, ps, bytes) ->
+     ps <> [] -> bytes <> []) ->
+  t1_roundtrip wn hn orient style fb data = Ok data.
+Proof. exact t1_bytes_roundtrip_lazy_gen. Qed.
+Print Assumptions C20_t1_bytes_roundtrip_lazy_pterm.
+
+(* the LAZY classes on concrete streams: 1x2 block, 10 bit-planes, 28 passes; style LAZY: the
+   pass list is cut into 1 + 2*6 segments (terminated passes: the 10th, then two of every three);
+   style LAZY|RESET|PTERM|SEGSYM with fb = 8 (two bit-planes coded, one codeword closed by the
+   final Flush, no pass terminated) *)
+Example C20_t1_bytes_roundtrip_lazy_instance :
+  (match enc_layered 1 2 0 1 0 28 [1000; -3] with
+   | Ok (mb, ps, bytes) => Some (mb, length ps, map p_term ps, negb (zlen bytes =? 0)) | _ => None end)
+  = Some (9, 28%nat,
+          [false; false; false; false; false; false; false; false; false; true;
+           false; true; true; false; true; true; false; true; true; false; true; true;
+           false; true; true; false; true; true], true) /\
+  t1_roundtrip 1 2 0 1 0 [1000; -3] = Ok [1000; -3] /\
+  (match enc_layered 1 2 0 51 8 4 [768; -256] with
+   | Ok (mb, ps, bytes) => Some (mb, map p_term ps, map p_rate ps, zlen bytes) | _ => None end)
+  = Some (9, [false; false; false; false], [2; 2; 2; 2], 2) /\
+  t1_roundtrip 1 2 0 51 8 [768; -256] = Ok [768; -256].
+Proof. vm_compute. repeat split; reflexivity. Qed.
+
+(* every style without PTERM (32 of 64): no hypothesis on the stream *)
+Theorem C20_t1_bytes_roundtrip_no_pterm :
+  forall (wn hn : nat) (orient style fb : Z) (data : list Z),
+  Z.land style 16 = 0 ->
+  length data = (wn * hn)%nat -> data_ok data -> 0 <= fb ->
+  (forall v, In v data -> exists c, v = c * 2 ^ fb) ->
+  t1_roundtrip wn hn orient style fb data = Ok data.
+Proof. exact t1_bytes_roundtrip_no_pterm. Qed.
+Print Assumptions C20_t1_bytes_roundtrip_no_pterm.
+
+(* ALL 64 style combinations (any style word), provided the encoder's output is not empty *)
+Theorem C20_t1_bytes_roundtrip_all_styles :
+  forall (wn hn : nat) (orient style fb : Z) (data : list Z),
+  length data = (wn * hn)%nat -> data_ok data -> 0 <= fb ->
+  (forall v, In v data -> exists c, v = c * 2 ^ fb) ->
+  (forall mb ps bytes,
+     enc_layered wn hn orient style fb (3 * (find_max_bitplane data - fb + 1) - 2) data = Ok (mb, ps, bytes) ->
+     ps <> [] -> bytes <> []) ->
+  t1_roundtrip wn hn orient style fb data = Ok data.
+Proof. exact t1_bytes_roundtrip_all_styles. Qed.
+Print Assumptions C20_t1_bytes_roundtrip_all_styles.
+
+(* the T1 clause of C20 in the form of C20_t1_roundtrip_statement, with the one extra hypothesis *)
+Theorem C20_t1_roundtrip :
+  forall (wn hn : nat) (orient style fb : Z) (data : list Z),
+    length data = (wn * hn)%nat -> (forall v, In v data -> Z.abs v <= 2 ^ 30) -> 0 <= fb ->
+    (forall v, In v data -> exists c, v = c * 2 ^ fb) ->
+    (Z.land style 16 = 0 \/
+     forall mb ps bytes,
+       enc_layered wn hn orient style fb (3 * (find_max_bitplane data - fb + 1) - 2) data = Ok (mb, ps, bytes) ->
+       ps <> [] -> bytes <> []) ->
+    t1_roundtrip wn hn orient style fb data = Ok data.
+Proof. exact t1_roundtrip_all. Qed.
+Print Assumptions C20_t1_roundtrip.
 
 (* hypotheses are satisfiable and the streams are not trivial: a 2x3 block with magnitudes up to
    2^30, fb = 6, style TERMALL|RESET|SEGSYM (73 passes, 73 segments) and style 0 *)
